@@ -11,13 +11,32 @@ package isaacblock
 
 //@ ghost nsaved int
 
-// assumed (its body runs a job worker and deferred functions, outside the
-// verified subset): a nil result means every importer it was given was saved
-//@ func saveImporters
-//@   trusted
-//@   requires forall(k, 0 <= k && k < len(ims) ==> ims[k] != nil)
+// nsaved counts successful BlockImporter.Save calls (interface contract, A9)
+//@ package github.com/spikeekips/mitum/isaac
+//@ func (BlockImporter).Save
+//@   nobody
 //@   modifies ghost:nsaved
+//@   ensures r1 == nil ==> r0 != nil && nsaved == old(nsaved) + 1
+//@   ensures r1 != nil ==> nsaved == old(nsaved)
+//@ package github.com/spikeekips/mitum/isaac/block
+
+// cleanup after a failure (runs CancelImport on every importer): outside the property
+//@ func cancelImporters
+//@   trusted
+//@   modifies *
+
+// a nil result means every importer it was given was saved, its deferred
+// function and the merge function returned nil
+//@ func saveImporters
+//@   prop C15
+//@   requires forall(k, 0 <= k && k < len(ims) ==> ims[k] != nil)
+//@   modifies ghost:nsaved, *
 //@   ensures r0 == nil ==> len(ims) >= 1 && nsaved == old(nsaved) + len(ims)
+//@   hof RunJobWorker#0 loop invariant nsaved == old(nsaved) + jcount && private(deferreds) && len(deferreds) == len(ims)
+//@   hof RunJobWorker#0 loop invariant forall(q, 0 <= q && q < len(deferreds) && jdone[q] ==> deferreds[q] != nil)
+//@   hof RunJobWorker#0 loop invariant forall(k, 0 <= k && k < len(ims) ==> ims[k] != nil)
+//@   loop 0 invariant nsaved == old(nsaved) + len(ims) && len(deferreds) == len(ims)
+//@   loop 0 invariant forall(q, 0 <= q && q < len(deferreds) ==> deferreds[q] != nil)
 
 // assumed: importing one block touches nothing the caller owns
 //@ func importBlock
